@@ -247,6 +247,8 @@ def run_dispatch(rulename):
         pre = [z3.Int('n') >= 1, z3.Int('order') >= 1]
         if method == 'multicomplex':
             pre.append(z3.Int('n') <= 2)
+        if rulename == 'LogJacobianRule':
+            pre.append(z3.Int('n') == 1)      # Jacobian / Gradient are first-derivative classes
         with installed(fd):
             import warnings
             with warnings.catch_warnings():
